@@ -233,7 +233,14 @@ class Play:
                 parent, qc = b[0], f"Q_{b[0]}"
         self.L.append(f"block {nm} parent={parent} view={view} proposer={prop} qc={qc}")
         inert = " expect=inert" if kind.startswith("bad-qc") and qc != self.curqc else ""
-        self.L.append(f"deliver propose {nm} from={prop}{inert}")
+        att = ""
+        if rng.random() < (0.1 if self.agg else 0.35):
+            # an aggregate QC nobody asked for (without aggregate QCs configured the field is ignored
+            # by certificate verification; every other check must be made all the same)
+            if not any(l.startswith("agg EA ") for l in self.L):
+                self.L.append("agg EA sig=nil view=1 qcs=-")
+            att = " agg=EA"
+        self.L.append(f"deliver propose {nm} from={prop}{att}{inert}")
 
     def inject_votes(self, b, v, pv):
         rng = self.rng
